@@ -257,6 +257,42 @@ def run_generator(c):
     return fails, nontrivial
 
 
+def run_model_embedded(c):
+    """SpatialNetwork.Model / GeoNetwork.Model: the named generator's graph embedded on the given
+    grid - simple, consistent, the prescribed link count (ErdosRenyi n_links, BarabasiAlbert
+    m(n-m)), undirected, on the caller's grid object."""
+    from pyunicorn.core import SpatialNetwork, GeoNetwork, Grid, GeoGrid
+    fails = []
+    n = c["n"]
+    rs = np.random.RandomState(c["seed"] % (2 ** 32))
+    t = np.arange(3.0)
+    if c["cls"] == "geo":
+        cls, grid = GeoNetwork, GeoGrid(t, rs.uniform(-80, 80, n).round(2), rs.uniform(-180, 180, n).round(2),
+                                        silence_level=3)
+    else:
+        cls, grid = SpatialNetwork, Grid(t, rs.uniform(0, 3, (2, n)).round(3), silence_level=3)
+    name = cls.__name__ + ".Model"
+    seed_all(c["seed"])
+    if c["model"] == "ER":
+        net = cls.Model("ErdosRenyi", grid, n_nodes=n, n_links=c["m"], silence_level=3)
+        want = c["m"]
+    else:
+        net = cls.Model("BarabasiAlbert", grid, n_nodes=n, n_links_each=c["m"])
+        want = c["m"] * (n - c["m"])
+    if type(net) is not cls:
+        fails.append((name + "/type", type(net).__name__))
+    A = np.asarray(net.adjacency)
+    msg = not_simple(A, n) or net_consistent(net, A)
+    if msg:
+        fails.append((name + "/model-network", msg))
+        return fails, True
+    if int(net.n_links) != want or int(A.sum()) // 2 != want:
+        fails.append((name + "/n_links", f"{net.n_links} links, prescribed {want}"))
+    if net.grid is not grid or bool(net.directed):
+        fails.append((name + "/frame", "not on the given grid / not undirected"))
+    return fails, want > 0
+
+
 def run_rewire(c):
     from pyunicorn.core.network import Network
     fails = []
@@ -465,10 +501,16 @@ def run_cross(c):
             want = int(c["value"]) if c["value"] <= n1 * n2 else int(CA0.sum())
         else:
             want = int(CA0.sum())
-        if c["seed"] % 2:
-            out = fn(net, np.array(l1), np.array(l2), **kw)
-        else:
-            out = fn(net, l1, l2, **kw)
+        try:
+            if c["seed"] % 2:
+                out = fn(net, np.array(l1), np.array(l2), **kw)
+            else:
+                out = fn(net, l1, l2, **kw)
+        except Exception as e:   # noqa
+            if not (c.get("sparse") and c.get("ext")):
+                raise
+            # (extension cases of the _sparse variant report under their own name)
+            return [(name + "/raises", f"{type(e).__name__}: {e}; documented cross-link count {want}")], True
     else:
         name = "RandomlyRewireCrossLinks"
         if c["swaps"] * CA0.sum() >= 1 and not cross_swap_exists(CA0):
@@ -513,12 +555,13 @@ def run_cross(c):
 RUNNERS = {"ER_p": run_generator, "ER_m": run_generator, "BA": run_generator,
            "BA_igraph": run_generator, "Configuration": run_generator, "WS": run_generator,
            "rewire": run_rewire, "geomodel": run_geomodel, "dist": run_dist,
-           "cross_set": run_cross, "cross_rewire": run_cross}
+           "cross_set": run_cross, "cross_rewire": run_cross, "model_embedded": run_model_embedded}
 
 NAMES = {"ER_p": "ErdosRenyi", "ER_m": "ErdosRenyi", "BA": "BarabasiAlbert",
          "BA_igraph": "BarabasiAlbert_igraph", "Configuration": "Configuration",
          "WS": "WattsStrogatz", "rewire": "randomly_rewire", "dist": "set_random_links_by_distance",
-         "cross_set": "RandomlySetCrossLinks", "cross_rewire": "RandomlyRewireCrossLinks"}
+         "cross_set": "RandomlySetCrossLinks", "cross_rewire": "RandomlyRewireCrossLinks",
+         "model_embedded": "SpatialOrGeoNetwork.Model"}
 
 
 def run_one(c):
@@ -729,8 +772,27 @@ def make_cases(tier, seed):
                 cases.append(dict(base, kind="cross_set", how=how, value=val, seed=sd(), sparse=False))
             cases.append(dict(base, kind="cross_set", how="number", value=int(rs.randint(0, n12 + 1)),
                               seed=sd(), sparse=True))
+            if gi % 3 == 0:
+                # the _sparse variant with a density, with more links than pairs (documented: the
+                # count of the input network is used) and as a null model (no argument)
+                ers = np.random.RandomState(1000003 * seed + gi)
+                for how, val in (("density", float(ers.choice([0, 0.25, 0.5, 0.75, 1.0]))),
+                                 ("number", n12 + int(ers.randint(1, 4))), ("none", None)):
+                    cases.append(dict(base, kind="cross_set", how=how, value=val,
+                                      seed=int(ers.randint(1, 2 ** 31 - 1)), sparse=True, ext=True))
             for swaps in (0, 0.5, 1.0, 3.0):
                 cases.append(dict(base, kind="cross_rewire", swaps=swaps, seed=sd()))
+    # --- generators embedded on a grid (SpatialNetwork.Model / GeoNetwork.Model)
+    ers = np.random.RandomState(7919 * seed + 17)
+    for n in (range(2, 8) if quick else range(2, 13)):
+        M = n * (n - 1) // 2
+        for cls in ("spatial", "geo"):
+            for m in sorted({0, 1, M // 2, M}):
+                cases.append({"kind": "model_embedded", "cls": cls, "model": "ER", "n": n, "m": int(m),
+                              "seed": int(ers.randint(2 ** 31 - 1))})
+            if n > 2:
+                cases.append({"kind": "model_embedded", "cls": cls, "model": "BA", "n": n,
+                              "m": int(ers.randint(1, n - 1)), "seed": int(ers.randint(2 ** 31 - 1))})
     return cases
 
 
@@ -746,7 +808,11 @@ SCOPE = ("seeded sweeps (3 seeds per configuration quick / 12 thorough): ErdosRe
          "distance matrices), single-swap stepping and bulk iterations {0..40}; "
          "set_random_links_by_distance 60/500 cases incl. probability-0 and >=1 extremes; "
          "RandomlySetCrossLinks(+_sparse)/RandomlyRewireCrossLinks on all 4-node graphs (3,4 thorough) "
-         "and 80/800 random graphs n<=11 with random disjoint (possibly non-covering, unsorted) groups. "
+         "and 80/800 random graphs n<=11 with random disjoint (possibly non-covering, unsorted) groups "
+         "(the _sparse variant on every third graph also with a density, with more links than pairs and "
+         "as a null model without arguments: the documented count is the input's cross-link count); "
+         "SpatialNetwork.Model / GeoNetwork.Model (ErdosRenyi n_links in {0,1,M/2,M}, BarabasiAlbert) "
+         "for n=2..7/12 on random grids: simple, consistent, prescribed link count, on the given grid. "
          "Length conditions: float32 kernel, slack 1e-5*max|D|; everything else exact (integers).")
 RULE = ("one evaluation = one call of a generator / randomisation with one RNG seed, all its clauses "
         "checked on the returned adjacency; cases where no admissible swap exists (operation does "
